@@ -398,6 +398,22 @@ func (h *histState) lintCall(i int, p *Parsed, reg lint.Registry, path string, p
 					cs.Results[ls[j].Name] = resOf(r)
 				}
 			}
+		case "depsource":
+			// the deprecated Lint values handed out per source
+			partial = true
+			cfg := reg.GetConfiguration()
+			srcs := map[string]bool{}
+			for _, s := range reg.Sources() {
+				srcs[string(s)] = true
+			}
+			for _, s := range sortedKeys(srcs) {
+				for _, l := range reg.BySource(lint.LintSource(s)) {
+					if l == nil {
+						continue
+					}
+					cs.Results[l.Name] = resOf(l.Execute(p.Cert, cfg))
+				}
+			}
 		case "deprecated":
 			partial = true
 			cfg := reg.GetConfiguration()
